@@ -264,8 +264,11 @@ PROPS["C04"] = Prop(
 
 
 def xml_backend_env(k):
-    # the XML back-end choice is cached in process-wide statics: fix it per worker process
-    return {"HWLOC_LIBXML_IMPORT": str(k % 2), "HWLOC_LIBXML_EXPORT": str((k // 2) % 2)}
+    # the XML back-end choice is cached in process-wide statics: fix it per worker process. Worker k owns the case indexes congruent to k
+    # modulo the number of workers and the harnesses pick case classes with index % 3, 4, 8...: the assignment mixes all bits of k so that every
+    # such class is run with both importers and both exporters (with import = k % 2 the XML classes of several monitors only ever saw one parser).
+    b = [(k >> i) & 1 for i in range(6)]
+    return {"HWLOC_LIBXML_IMPORT": str((b[0] + b[1] + b[2] + b[3] + b[4] + b[5]) % 2), "HWLOC_LIBXML_EXPORT": str((b[1] + b[3] + b[5]) % 2)}
 
 
 PROPS["C01"] = Prop(
@@ -282,7 +285,7 @@ PROPS["C01"] = Prop(
         "sibling order, memory-children order and symmetric_subtree are not in the statement: only checked through the built-in checker",
         "os_index values stay below the 2048-bit model window (counter wf.os_index_beyond_window otherwise)",
         "snapshot loads use the component selections of the repository's test drivers (linux,stop / x86,stop / x86,linux,stop ...)",
-        "even workers import XML with libxml2, odd workers with the built-in parser"],
+        "the XML importer/exporter pair is fixed per worker process by a function of all bits of the worker number (every case class sees both parsers)"],
     technique="runtime monitor: independent well-formedness oracle (public accessors + SET model) and hwloc_topology_check() on every successful load, under gcc ASan+UBSan+LSan",
     level_text=("exploration: sources x configurations are sampled; every successful load is checked by an oracle that shares no code with the "
                 "library's checker, and by the built-in checker (abort = violation)"),
